@@ -576,6 +576,14 @@ impl State {
     }
 
     fn apply_load_coherence(&mut self, threads: &mut thread::Set, index: usize) {
+        // Stores already ordered after the one being read must stay after it
+        // when its modification order advances below.
+        let mut newer = [false; MAX_ATOMIC_HISTORY];
+        for (i, newer) in newer.iter_mut().enumerate() {
+            *newer = i != index
+                && self.stores[index].modification_order < self.stores[i].modification_order;
+        }
+
         for i in 0..self.stores.len() {
             // Skip if the is current.
             if index == i {
@@ -592,6 +600,13 @@ impl State {
             if self.stores[i].happens_before < threads.active().causality {
                 let mo = self.stores[i].modification_order;
                 self.stores[index].modification_order.join(&mo);
+            }
+        }
+
+        let mo = self.stores[index].modification_order;
+        for (i, &newer) in newer.iter().enumerate() {
+            if newer {
+                self.stores[i].modification_order.join(&mo);
             }
         }
     }
